@@ -31,12 +31,14 @@ BASES = {
                                "external_references": EXT},
 }
 BASES["v21-malware-dict"] = BASES["v21-malware"]
-VERSION = {"v21-malware": "2.1", "v20-malware": "2.0", "v21-relationship": "2.1", "v21-marking-definition": "2.1", "v21-malware-dict": "2.1"}
+# an object that carries custom content (a custom property): marking operations are versioning operations and must carry it along
+BASES["v21-malware-custom"] = dict(BASES["v21-malware"], x_note={"k": [1, 2]}, id="malware--" + U + "18")
+VERSION = {"v21-malware": "2.1", "v20-malware": "2.0", "v21-relationship": "2.1", "v21-marking-definition": "2.1", "v21-malware-dict": "2.1", "v21-malware-custom": "2.1"}
 
 SEL_MALWARE = ["name", "description", "created", "created_by_ref", "labels", "labels.[0]", "labels.[1]", "labels.[10]", "external_references",
                "external_references.[0]", "external_references.[0].description"]
 SELECTORS = {
-    "v21-malware": SEL_MALWARE, "v20-malware": SEL_MALWARE, "v21-malware-dict": SEL_MALWARE,
+    "v21-malware": SEL_MALWARE, "v20-malware": SEL_MALWARE, "v21-malware-dict": SEL_MALWARE, "v21-malware-custom": SEL_MALWARE,
     "v21-relationship": ["relationship_type", "description", "created", "created_by_ref", "labels", "labels.[0]", "labels.[1]", "labels.[10]", "external_references",
                          "external_references.[0]", "external_references.[0].description"],
     "v21-marking-definition": ["name", "created", "created_by_ref", "definition", "definition.statement", "external_references.[0].description"],
@@ -118,7 +120,7 @@ def make(kind, pairs=frozenset(), layout=None):
         d["granular_markings"] = gm
     if kind.endswith("-dict"):
         return d
-    return stix2.parse(d, version=VERSION[kind])
+    return stix2.parse(d, version=VERSION[kind], allow_custom=kind.endswith("-custom"))
 
 
 def view(obj):
@@ -492,6 +494,11 @@ def run(run):
     run.bfs(lay_items, expand_item, 0, None)
     # query-only exploration of the non-versionable 2.1 marking-definition and of directly constructed states (start from non-initial states)
     direct = []
+    # the object with custom content: every operation from every state with <= 2 pairs out of a small pair menu (object-level pairs included, so that removing one of
+    # two object markings, and the last one, are both executed)
+    for n in (1, 2):
+        for c in itertools.combinations([(None, RED), (None, STMT), ("name", RED), ("labels", "en")], n):
+            direct.append({"kind": "v21-malware-custom", "history": [], "start_pairs": [list(p) for p in c], "expand": True})
     for k in ("v21-marking-definition", "v21-malware", "v21-malware-dict"):
         marks = [RED, STMT, "en"]
         P = [(s, m) for s in [None] + SELECTORS[k] for m in marks if not (s is None and MS.is_lang(m))]
